@@ -14,13 +14,14 @@
 
 enum { CK_ARRAY, CK_LIST, CK_TABLE, CK_TREE };
 static const char* CKNAME[4] = { "Array", "List", "Table", "Tree" };
-enum { NCONT = 8, MAXSEQ = 400, MAPU = 40 };
+enum { NCONT = 10, MAXSEQ = 400, MAPU = 40 };
 
 struct cont {
   int kind;
   var c;
   int n;                       /* sequences */
   int64_t m[MAXSEQ];
+  int kint, vint;              /* maps: key / value is a plain Int (8 bytes) instead of the 32-byte probe: unequal sizes */
   int present[MAPU];           /* maps: key id -> bound? */
   int64_t val[MAPU];
   int nmap;
@@ -30,6 +31,9 @@ static int is_map(int k) { return k >= CK_TABLE; }
 static uint64_t key_hash(int k) { return (uint64_t)(k % 3) * 7; }     /* three colliding clusters */
 #define KEYOBJ(k) PE_KEY((k), key_hash(k))
 #define VALOBJ(v) PE_KEY((v), (uint64_t)(v))
+#define MKEY(C, k) ((C)->kint ? (var)$I(k) : (var)KEYOBJ(k))
+#define MVAL(C, v) ((C)->vint ? (var)$I(v) : (var)VALOBJ(v))
+static int64_t obj_id(var x) { return type_of(x) == Int ? ((struct Int*)x)->val : ((struct PElem*)x)->id; }
 
 static int64_t harness_probes;     /* standalone PElem objects the harness itself holds */
 static int64_t* stamp; static int64_t stamp_cap; static int64_t epoch;
@@ -71,20 +75,20 @@ static void check_world(struct cont* W, int64_t live0, const char* after) {
         idx++;
       }
     } else {
-      expect_live += 2 * k->nmap;
+      expect_live += (2 - k->kint - k->vint) * k->nmap;
       vh_eval();
       if (len(k->c) != (size_t)k->nmap) { vh_violation("C05:model:len-mismatch", "%s len=%zu reference=%d after %s", where, len(k->c), k->nmap, after); continue; }
       int seen = 0;
       foreach (key in k->c) {
         if (seen++ > k->nmap + 1) { break; }
-        struct PElem* kp = key;
-        struct PElem* vp = get(k->c, key);
+        var val = get(k->c, key);
+        int64_t kid = obj_id(key), vid = obj_id(val);
         vh_eval();
-        if (kp->id < 0 || kp->id >= MAPU || !k->present[kp->id] || vp->id != k->val[kp->id]) {
-          vh_violation("C05:model:contents-differ", "%s binding %" PRId64 " -> %" PRId64 " disagrees with the reference after %s", where, kp->id, vp->id, after); break;
+        if (kid < 0 || kid >= MAPU || !k->present[kid] || vid != k->val[kid]) {
+          vh_violation("C05:model:contents-differ", "%s binding %" PRId64 " -> %" PRId64 " disagrees with the reference after %s", where, kid, vid, after); break;
         }
-        stamp_token(kp->token, where, after);
-        stamp_token(vp->token, where, after);
+        if (!k->kint) { stamp_token(((struct PElem*)key)->token, where, after); }
+        if (!k->vint) { stamp_token(((struct PElem*)val)->token, where, after); }
       }
     }
   }
@@ -95,14 +99,14 @@ static void check_world(struct cont* W, int64_t live0, const char* after) {
   }
 }
 
-static void cont_new(struct cont* k, int kind) {
+static void cont_new(struct cont* k, int kind, int kint, int vint) {
   memset(k, 0, sizeof *k);
-  k->kind = kind;
+  k->kind = kind; k->kint = kint; k->vint = vint;
   switch (kind) {
     case CK_ARRAY: k->c = new(Array, PElem); break;
     case CK_LIST: k->c = new(List, PElem); break;
-    case CK_TABLE: k->c = new(Table, PElem, PElem); break;
-    default: k->c = new(Tree, PElem, PElem); break;
+    case CK_TABLE: k->c = new_with(Table, tuple(kint ? Int : PElem, vint ? Int : PElem)); break;
+    default: k->c = new_with(Tree, tuple(kint ? Int : PElem, vint ? Int : PElem)); break;
   }
 }
 
@@ -176,7 +180,7 @@ static void map_op(vh_rng* r, struct cont* W, int i, char* opd, size_t cap) {
     snprintf(opd, cap, "%s#%d.set x30", CKNAME[k->kind], i);
     for (int q = 0; q < 30; q++) {
       key = (int)vh_below(r, MAPU); v = vh_range(r, 100, 999);
-      set(k->c, KEYOBJ(key), VALOBJ(v));
+      set(k->c, MKEY(k, key), MVAL(k, v));
       if (!k->present[key]) { k->present[key] = 1; k->nmap++; }
       k->val[key] = v;
     }
@@ -184,7 +188,7 @@ static void map_op(vh_rng* r, struct cont* W, int i, char* opd, size_t cap) {
   } else if (roll < 50) {
     snprintf(opd, cap, "%s#%d.set(k%d,%" PRId64 ")%s", CKNAME[k->kind], i, key, v, k->present[key] ? " [update]" : "");
     if (k->present[key]) { vh_count(k->kind == CK_TABLE ? "table_replace_under_collision" : "tree_updates"); }
-    set(k->c, KEYOBJ(key), VALOBJ(v));
+    set(k->c, MKEY(k, key), MVAL(k, v));
     if (!k->present[key]) { k->present[key] = 1; k->nmap++; }
     k->val[key] = v;
   } else if (roll < 85) {
@@ -192,7 +196,7 @@ static void map_op(vh_rng* r, struct cont* W, int i, char* opd, size_t cap) {
     for (int d = 0; d < MAPU; d++) { key = (start + d) % MAPU; if (k->present[key]) { break; } }
     if (!k->present[key]) { snprintf(opd, cap, "skip"); return; }
     snprintf(opd, cap, "%s#%d.rem(k%d)", CKNAME[k->kind], i, key);
-    rem(k->c, KEYOBJ(key));
+    rem(k->c, MKEY(k, key));
     k->present[key] = 0; k->nmap--;
   } else if (roll < 92) {
     snprintf(opd, cap, "%s#%d.resize(0)", CKNAME[k->kind], i);
@@ -218,7 +222,7 @@ static void transfer_op(vh_rng* r, struct cont* W, char* opd, size_t cap) {
     snprintf(opd, cap, "assign(%s#%d <- %s#%d)", CKNAME[W[i].kind], i, CKNAME[W[j].kind], j);
     assign(W[i].c, W[j].c);
     int kind = W[i].kind; var c = W[i].c;
-    W[i] = W[j]; W[i].kind = kind; W[i].c = c;
+    W[i] = W[j]; W[i].kind = kind; W[i].c = c;          /* the target adopts the source's key / value types */
     if (W[i].kind != W[j].kind) { vh_count("cross_kind_assigns"); } else { vh_count("same_kind_assigns"); }
   } else {
     if (is_map(W[i].kind) != is_map(W[j].kind)) { snprintf(opd, cap, "skip"); return; }
@@ -236,7 +240,11 @@ static void __attribute__((noinline)) run_world(vh_rng* r, int nops, int stopped
   int64_t live0 = pe.live;
   var gcobj = current(GC);
   if (stopped) { stop(gcobj); vh_count("cases_with_collector_stopped"); }
-  for (int i = 0; i < NCONT; i++) { cont_new(&W[i], i % 4); }
+  /* 0-3: Array, List, Table<P,P>, Tree<P,P>; 4-5: Array, List; 6-7: Table<Int,P>, Tree<Int,P>; 8-9: Table<P,Int>, Tree<P,Int> */
+  for (int i = 0; i < NCONT; i++) {
+    int kind = i < 4 ? i : i < 6 ? i - 4 : (i % 2 == 0 ? CK_TABLE : CK_TREE);
+    cont_new(&W[i], kind, i == 6 || i == 7, i == 8 || i == 9);
+  }
   harness_probes = 0;
   vh_op("8 containers ops=%d collector=%s", nops, stopped ? "stopped" : "running");
   char opd[128];
@@ -363,6 +371,7 @@ static void fixed(void) {
 
 int main(int argc, char** argv) {
   probes_init();
+  pe_prop = "C05";
   mo_prop = "C05";
   return vh_run(argc, argv, "world", fixed, case_random);
 }
